@@ -1,7 +1,66 @@
-(** C03 — statements about the node model; see Proofs/NodeFacts.v *)
-From Wasp Require Import Model.Base Model.Node.
-From stdpp Require Import list.
+(** C03 — Unacknowledged QoS 1/2 deliveries are retransmitted until completed. *)
+From Wasp Require Import Model.Base Spec.MatchSpec Model.DState Model.IdPool Model.Mount Model.Node Proofs.BaseFacts Proofs.MountFacts Proofs.NodeFacts.
+From stdpp Require Import list strings.
 Open Scope Z_scope.
-Theorem C03_model_is_total : ∀ seen cl o, ∃ cl' obs, step seen cl o = (cl', obs).
-Proof. intros. destruct (step seen cl o) as [cl' obs]. by exists cl', obs. Qed.
-Print Assumptions C03_model_is_total.
+
+(** What the in-flight callbacks of the writer do.  A sweep runs them with expired = true for
+    every pending entry; an acknowledgement of the expected type runs the entry's callback with
+    expired = false (C04 proves that nothing else ever runs them, and each at most once per
+    registration).  [rearmed]: the same exchange is pending again with the SAME identifier;
+    [released]: the identifier went back to the pool and nothing is pending. *)
+Theorem qos1_retransmit : ∀ bad n sid p s, alookup sid (n_reg n) = Some s → ss_id s = sid →
+  opkt_mid p ≠ 0 → ack_find (n_acks n) sid (opkt_mid p) = None →
+  let r := on_outcome bad n (AEntry sid (opkt_mid p) PUBACK (TQ1 sid p)) true in
+  r.1.2 = wout bad (ss_conn s) p ∧ rearmed n r.1.1 (AEntry sid (opkt_mid p) PUBACK (TQ1 sid p)) ∧ r.2 = None.
+Proof. exact expired_q1_retransmits. Qed.
+Print Assumptions qos1_retransmit.
+Theorem qos2_publish_phase : ∀ bad n sid p s, alookup sid (n_reg n) = Some s → ss_id s = sid →
+  opkt_mid p ≠ 0 → ack_find (n_acks n) sid (opkt_mid p) = None →
+  let r := on_outcome bad n (AEntry sid (opkt_mid p) PUBREC (TQ2Pub sid p)) true in
+  r.1.2 = wout bad (ss_conn s) p ∧ rearmed n r.1.1 (AEntry sid (opkt_mid p) PUBREC (TQ2Pub sid p)) ∧ r.2 = None.
+Proof. exact expired_q2_retransmits. Qed.
+Print Assumptions qos2_publish_phase.
+Theorem qos2_pubrec_then_pubrel : ∀ bad n sid p s, alookup sid (n_reg n) = Some s → ss_id s = sid →
+  opkt_mid p ≠ 0 → ack_find (n_acks n) sid (opkt_mid p) = None →
+  let r := on_outcome bad n (AEntry sid (opkt_mid p) PUBREC (TQ2Pub sid p)) false in
+  r.1.2 = wout bad (ss_conn s) (OPubRel (opkt_mid p)) ∧ rearmed n r.1.1 (AEntry sid (opkt_mid p) PUBCOMP (TQ2Rel sid (opkt_mid p))) ∧ r.2 = None.
+Proof. exact pubrec_starts_pubrel. Qed.
+Print Assumptions qos2_pubrec_then_pubrel.
+Theorem qos2_pubrel_phase : ∀ bad n sid mid s, alookup sid (n_reg n) = Some s → ss_id s = sid →
+  mid ≠ 0 → ack_find (n_acks n) sid mid = None →
+  let r := on_outcome bad n (AEntry sid mid PUBCOMP (TQ2Rel sid mid)) true in
+  r.1.2 = wout bad (ss_conn s) (OPubRel mid) ∧ rearmed n r.1.1 (AEntry sid mid PUBCOMP (TQ2Rel sid mid)) ∧ r.2 = None.
+Proof. exact expired_pubrel_retransmits. Qed.
+Print Assumptions qos2_pubrel_phase.
+
+(** After the completing acknowledgement, or at the first sweep after the session ended,
+    nothing is sent and the identifier is reusable. *)
+Theorem completion_frees : ∀ bad n e expired,
+  match a_tag e with
+  | TQ1 sid p => (expired = false ∨ alookup sid (n_reg n) = None) → (on_outcome bad n e expired).1.2 = [] ∧ released n (on_outcome bad n e expired).1.1 (opkt_mid p)
+  | TQ2Pub sid p => alookup sid (n_reg n) = None → (on_outcome bad n e expired).1.2 = [] ∧ released n (on_outcome bad n e expired).1.1 (opkt_mid p)
+  | TQ2Rel sid mid => (expired = false ∨ alookup sid (n_reg n) = None) → (on_outcome bad n e expired).1.2 = [] ∧ released n (on_outcome bad n e expired).1.1 mid
+  | TIn _ _ _ _ => True
+  end.
+Proof. exact completion_frees. Qed.
+Print Assumptions completion_frees.
+
+(** An acknowledgement of the wrong type, or for an identifier that is not in flight, changes nothing. *)
+Theorem wrong_ack_harmless : ∀ cl c ty mid clk k i n s,
+  find_conn cl c = Some k → c_closed k = false → c_sid k = Some (ss_id s) → i = c_node k → n = getn cl i →
+  alookup (ss_id s) (n_reg n) = Some s →
+  let prefix := if ty =? PUBREL then (ss_id s ++ "/in")%string else ss_id s in
+  (ack_find (n_acks n) prefix mid = None ∨ ∃ e, ack_find (n_acks n) prefix mid = Some e ∧ a_expect e ≠ ty) →
+  do_ack cl c ty mid clk = (cl, dl s).
+Proof. exact wrong_ack_harmless. Qed.
+Print Assumptions wrong_ack_harmless.
+
+Example c03_history :
+  let run := fold_left (λ st o, let r := step [] st.1 o in (r.1, (st.2 ++ [r.2])%list)) in
+  let ops := [EConnect 0%nat "sub" "c-sub" "" "" 60 None 10; ESubscribe "sub" 1 [("t/#", 1)] 20;
+              EConnect 0%nat "pub" "c-pub" "" "" 60 None 30; EPublish "pub" (Publish "t/a" "x" 0 false) false 0 40;
+              ESweep 0%nat; EAck "sub" PUBREC (RefRaw 1) 50; ESweep 0%nat; EAck "sub" PUBACK (RefRaw 1) 60; ESweep 0%nat] in
+  let o := (run ops (cnew 1%nat, [])).2 in
+  nth 4%nat o [] = [Out "sub" (OPublish "t/a" "x" 1 false false 1)] ∧ nth 5%nat o [] = [Deadline "sub" 120000]
+  ∧ nth 6%nat o [] = [Out "sub" (OPublish "t/a" "x" 1 false false 1)] ∧ nth 8%nat o [] = [].
+Proof. vm_compute. done. Qed.
